@@ -11,7 +11,8 @@ MANIFEST = {
             "coap_io_prepare_io_lkd, dispatch, NSTART gate + delay queue), EVERY event sequence that keeps sessions established, any "
             "number of messages and sessions sharing the queue: m_schedule_all (punctual runs: every CON transmission at t0 + (2^k-1)T "
             "of its own coap_send, T the ONE coap_calc_timeout value drawn there, k <= MAX_RETRANSMIT), m_pending_on_schedule, "
-            "m_giveup_after_all_retransmissions, m_at_most_max_retransmissions, m_due_fires, punctual_of_clock, m_single_outcome "
+            "m_giveup_after_all_retransmissions, m_at_most_max_retransmissions, m_transmissions_exactly (cnt+1 transmissions, each slot "
+            "once), m_giveup_exactly_max, m_due_fires, punctual_of_clock, m_single_outcome "
             "(accepted sends = outcome NACKs + ACK completions + queued + delayed), m_never_sent_again; for EVERY event and state "
             "pdu_and_timeout_never_modified (mid/token/type and stored timeout of a node never change).  m_refines_timer_partial: exact "
             "simulation M -> S (same pending list, same observable outputs in order) when CONs are submitted with NSTART room and no "
@@ -39,6 +40,7 @@ REQUIRED_THEOREMS = ["queue_abs_invariant", "insert_commutes", "pop_commutes", "
                      "m_never_sent_again", "m_pdu_and_timeout_fixed", "m_giveup_after_all_retransmissions",
                      "m_at_most_max_retransmissions", "sleep_returned_wait_ok", "punctual_of_clock",
                      "pdu_and_timeout_never_modified", "pdu_and_timeout_never_modified_step", "sim_gate_order_witness",
+                     "m_transmissions_exactly", "m_giveup_exactly_max",
                      "m_refines_timer_partial", "m_refines_timer_from_partial", "m_schedule_via_timer_partial",
                      "m_single_outcome_via_timer_partial"]
 RULE = ("scenario lines for harness/msg.c (one real client context, 1-3 UDP sessions sharing the send queue, virtual clock, "
